@@ -17,10 +17,11 @@ import scipy.linalg
 
 from vk.rtc.harness import run_cases
 
-LEVEL = "exploration"
+LEVEL = "other"
 TECHNIQUE = ("contracts evaluated at run time on the real functions (expm_krylov; svd_qn, eigh_qn, optimized_svd, add_orthonormal_basis, "
              "blockrecover/blockappend, add_outer, get_qn_mask) over bounded-exhaustive inputs against scipy.linalg.expm / dense NumPy "
-             "linear algebra of the masked matrix (bounded stand-in; nothing counted as proved)")
+             "linear algebra of the masked matrix (bounded stand-in); Engine S kernel-stub mode: svd_qn's block / label bookkeeping around the LAPACK calls decided "
+             "exactly on indeterminate matrices for every enumerated label pattern and all six SVD/QR modes")
 
 EPS = float(np.finfo(float).eps)
 # --- derived tolerances -------------------------------------------------------------------------------------------------
@@ -911,6 +912,8 @@ def enumerate_cases(run):
 
 
 def check(run):
+    from props import C18_kernel
+    C18_kernel.prove(run)
     cases = enumerate_cases(run)
     batch = len(cases) if run.tier == "quick" else 3000
     order = np.random.default_rng(run.seed).permutation(len(cases))     # balance long and short cases over the pool
